@@ -1,14 +1,1072 @@
-//! stub — not built yet
+//! tcp2 — two REAL smoltcp interfaces (Medium::Ip), one tcp::Socket each, joined by a network
+//! the explorer controls. Serves C01 (stream integrity), C02 (progress / finite deadline),
+//! and carries the C05 sender monitor; its runs are also reused by C10/C13.
+//!
+//! Default schedule: deliver the oldest in-flight frame; applications act eagerly (to a
+//! fixpoint after every event); advance the clock to the earliest poll_at only when nothing
+//! is in flight. Deviations (cost 1 each): drop / duplicate / corrupt the head frame of a
+//! direction, deliver a non-head frame first (reorder), let a timer fire while frames are in
+//! flight (delay), stall a reader (zero windows).
+
 use crate::core::*;
-pub fn run_c01(_tier: Tier) -> i32 {
-    2
+use crate::sim::*;
+use crate::wirecheck::{self as wc, TcpInfo};
+use serde_json::json;
+use smoltcp::iface::{Config, Interface, SocketHandle, SocketSet};
+use smoltcp::phy::Medium;
+use smoltcp::socket::tcp::{self, CongestionControl, State};
+use smoltcp::time::{Duration, Instant};
+use smoltcp::wire::{HardwareAddress, IpAddress, IpCidr, Ipv4Address, Ipv6Address};
+
+#[derive(Clone, Debug)]
+pub struct Tcp2Cfg {
+    pub name: &'static str,
+    pub rx: [usize; 2],
+    pub tx: [usize; 2],
+    pub mtu: usize,
+    pub len: [usize; 2],
+    pub chunk: usize,
+    pub cc: u8, // 0 none 1 reno 2 cubic
+    pub nagle: bool,
+    pub ack_delay: bool,
+    pub isn: Option<[u32; 2]>,
+    pub v6: bool,
+    /// B closes only after it saw Finished (true) or as soon as it wrote everything (false)
+    pub b_waits_fin: bool,
+    pub allow_corrupt: bool,
+    pub allow_stall: bool,
+    pub keep_alive_ms: Option<u64>,
+    pub timeout_ms: Option<u64>,
+    pub slaac: bool,
 }
-pub fn replay_c01(_art: &serde_json::Value) -> i32 {
-    2
+
+impl Tcp2Cfg {
+    pub const fn base(name: &'static str) -> Tcp2Cfg {
+        Tcp2Cfg {
+            name,
+            rx: [64, 64],
+            tx: [64, 64],
+            mtu: 80,
+            len: [60, 0],
+            chunk: 1000,
+            cc: 0,
+            nagle: true,
+            ack_delay: true,
+            isn: None,
+            v6: false,
+            b_waits_fin: true,
+            allow_corrupt: false,
+            allow_stall: true,
+            keep_alive_ms: None,
+            timeout_ms: None,
+            slaac: false,
+        }
+    }
 }
-pub fn run_c02(_tier: Tier) -> i32 {
-    2
+
+#[derive(Clone, Debug, PartialEq)]
+pub enum Ev {
+    /// deliver frame `idx` of the queue travelling towards endpoint `to`
+    Deliver { to: usize, idx: usize },
+    Drop { to: usize },
+    Dup { to: usize },
+    Corrupt { to: usize },
+    /// advance the clock to the earliest poll_at deadline
+    Tick,
+    Stall { side: usize },
+    Unstall { side: usize },
 }
-pub fn replay_c02(_art: &serde_json::Value) -> i32 {
-    2
+
+pub struct Frame {
+    pub id: u64,
+    pub bytes: Vec<u8>,
+    pub corrupted: bool,
+}
+
+pub struct End {
+    pub iface: Interface,
+    pub dev: SimDevice,
+    pub sockets: SocketSet<'static>,
+    pub h: SocketHandle,
+    pub data: Vec<u8>,
+    pub written: usize,
+    pub closed: bool,
+    pub read: Vec<u8>,
+    pub finished: bool,
+    pub stalled: bool,
+    pub spinning: bool,
+    pub addr: IpAddress,
+    pub rx_cap: usize,
+    pub invalid_seen: bool,
+}
+
+impl End {
+    pub fn sock(&mut self) -> &mut tcp::Socket<'static> {
+        self.sockets.get_mut::<tcp::Socket>(self.h)
+    }
+    pub fn state(&self) -> State {
+        self.sockets.get::<tcp::Socket>(self.h).state()
+    }
+}
+
+/// What one endpoint has put on / learned from the wire: C05 sender monitor.
+#[derive(Default)]
+pub struct SenderMon {
+    pub iss: Option<u32>,
+    pub own_syn_ws: Option<u8>,
+    pub own_syn_seen: bool,
+    pub peer_syn_mss: Option<Option<u16>>, // Some(None) = SYN seen without MSS option
+    pub peer_syn_ws: Option<u8>,
+    pub peer_syn_seen: bool,
+    pub peer_syn_win: Option<u16>,
+    pub max_edge: Option<u32>,
+    pub highest_sent: Option<u32>,
+    pub fin_seq: Option<u32>,
+    pub segs: u64,
+    pub data_segs: u64,
+    pub retrans_segs: u64,
+    pub probes: u64,
+}
+
+pub struct Tcp2 {
+    pub cfg: Tcp2Cfg,
+    pub now: i64, // microseconds
+    pub ends: [End; 2],
+    /// net[d]: frames travelling towards endpoint d, in emission order
+    pub net: [Vec<Frame>; 2],
+    pub next_id: u64,
+    pub mon: [SenderMon; 2],
+    pub events: usize,
+    pub pending: Vec<Viol>,
+    /// every frame emitted: (from, time, bytes) — for C10/C08 style monitors and replays
+    pub log: Vec<String>,
+    pub keep_log: bool,
+    pub emitted: Vec<(usize, Vec<u8>)>,
+    pub keep_emitted: bool,
+    pub cached_deadline: Option<i64>,
+}
+
+pub const PORT_A: u16 = 49152;
+pub const PORT_B: u16 = 80;
+
+fn addr_of(v6: bool, side: usize) -> IpAddress {
+    if v6 {
+        IpAddress::Ipv6(Ipv6Address::new(0xfd00, 0, 0, 0, 0, 0, 0, 1 + side as u16))
+    } else {
+        IpAddress::Ipv4(Ipv4Address::new(10, 0, 0, 1 + side as u8))
+    }
+}
+
+pub fn pattern(side: usize, n: usize) -> Vec<u8> {
+    // all bytes distinct mod 251; different phase per side
+    (0..n).map(|i| ((i * 7 + 3 + side * 101) % 251) as u8).collect()
+}
+
+impl Tcp2 {
+    fn make_end(cfg: &Tcp2Cfg, side: usize) -> End {
+        let mut dev = SimDevice::new(Medium::Ip, cfg.mtu);
+        let mut c = Config::new(HardwareAddress::Ip);
+        c.slaac = cfg.slaac;
+        c.random_seed = match cfg.isn {
+            // the ISN is the 4th draw: three draws in Interface::new, then random_seq_no
+            Some(isn) => seed_for_nth_output(isn[side], 4, 0x1234567 + side as u64),
+            None => 0x5eed_0000 + side as u64,
+        };
+        let mut iface = Interface::new(c, &mut dev, Instant::from_micros(0));
+        let addr = addr_of(cfg.v6, side);
+        iface.update_ip_addrs(|a| {
+            a.push(IpCidr::new(addr, if cfg.v6 { 64 } else { 24 })).unwrap();
+        });
+        let mut s = tcp::Socket::new(
+            tcp::SocketBuffer::new(vec![0u8; cfg.rx[side]]),
+            tcp::SocketBuffer::new(vec![0u8; cfg.tx[side]]),
+        );
+        s.set_nagle_enabled(cfg.nagle);
+        s.set_ack_delay(if cfg.ack_delay { Some(Duration::from_millis(10)) } else { None });
+        s.set_congestion_control(match cfg.cc {
+            1 => CongestionControl::Reno,
+            2 => CongestionControl::Cubic,
+            _ => CongestionControl::None,
+        });
+        s.set_keep_alive(cfg.keep_alive_ms.map(Duration::from_millis));
+        s.set_timeout(cfg.timeout_ms.map(Duration::from_millis));
+        let mut sockets = SocketSet::new(vec![]);
+        let h = sockets.add(s);
+        End {
+            iface,
+            dev,
+            sockets,
+            h,
+            data: pattern(side, cfg.len[side]),
+            written: 0,
+            closed: false,
+            read: vec![],
+            finished: false,
+            stalled: false,
+            spinning: false,
+            addr,
+            rx_cap: cfg.rx[side],
+            invalid_seen: false,
+        }
+    }
+
+    pub fn instant(&self) -> Instant {
+        Instant::from_micros(self.now)
+    }
+
+    fn poll_side(&mut self, side: usize) -> usize {
+        let now = self.instant();
+        let e = &mut self.ends[side];
+        e.iface.poll(now, &mut e.dev, &mut e.sockets);
+        let frames = e.dev.take_tx();
+        let n = frames.len();
+        let rq = e.sockets.get::<tcp::Socket>(e.h).recv_queue();
+        for (i, (_ts, f)) in frames.into_iter().enumerate() {
+            self.on_emit(side, &f, n == 1 && i == 0, rq);
+            if self.keep_log {
+                self.log.push(format!("t={}us {}: {}", self.now, ["A", "B"][side], wc::describe_ip_frame(&f)));
+            }
+            if self.keep_emitted {
+                self.emitted.push((side, f.clone()));
+            }
+            self.net[1 - side].push(Frame { id: self.next_id, bytes: f, corrupted: false });
+            self.next_id += 1;
+        }
+        n
+    }
+
+    fn poll_at(&mut self, side: usize) -> Option<i64> {
+        let now = self.instant();
+        let e = &mut self.ends[side];
+        e.iface.poll_at(now, &e.sockets).map(|t| t.total_micros())
+    }
+
+    /// one eager application step; returns true if any call had an effect
+    fn app_step(&mut self, side: usize) -> bool {
+        let b_waits = self.cfg.b_waits_fin;
+        let chunk = self.cfg.chunk;
+        let mut progress = false;
+        let peer_written_total = if self.ends[1 - side].closed { Some(self.ends[1 - side].written) } else { None };
+        let peer_data: Vec<u8> = {
+            let p = &self.ends[1 - side];
+            p.data[..p.written].to_vec()
+        };
+        let e = &mut self.ends[side];
+        let sock = e.sockets.get_mut::<tcp::Socket>(e.h);
+        // read side
+        if !e.stalled && !e.finished {
+            let mut buf = [0u8; 4096];
+            loop {
+                match sock.recv_slice(&mut buf) {
+                    Ok(0) => break,
+                    Ok(n) => {
+                        e.read.extend_from_slice(&buf[..n]);
+                        progress = true;
+                        if e.read.len() > peer_data.len() || e.read[..] != peer_data[..e.read.len()] {
+                            let at = e.read.iter().zip(peer_data.iter()).position(|(a, b)| a != b).unwrap_or(peer_data.len().min(e.read.len()));
+                            self.pending.push(Viol::new(
+                                "C01/not-a-prefix",
+                                format!("{} received {} bytes which are not a prefix of the {} bytes the peer wrote (first difference at offset {})", ["A", "B"][side], e.read.len(), peer_data.len(), at),
+                            ));
+                            e.finished = true; // stop cascading
+                            break;
+                        }
+                    }
+                    Err(tcp::RecvError::Finished) => {
+                        e.finished = true;
+                        progress = true;
+                        let complete = match peer_written_total {
+                            Some(t) => e.read.len() == t,
+                            None => false,
+                        };
+                        if !complete {
+                            self.pending.push(Viol::new(
+                                "C01/finished-before-all-bytes",
+                                format!(
+                                    "{} got Finished after {} bytes but the peer wrote {} bytes before closing (peer closed: {})",
+                                    ["A", "B"][side],
+                                    e.read.len(),
+                                    peer_data.len(),
+                                    peer_written_total.is_some()
+                                ),
+                            ));
+                        }
+                        break;
+                    }
+                    Err(tcp::RecvError::InvalidState) => break,
+                }
+            }
+        }
+        // write side
+        if !e.closed {
+            while e.written < e.data.len() && sock.may_send() {
+                let n = chunk.min(e.data.len() - e.written);
+                match sock.send_slice(&e.data[e.written..e.written + n]) {
+                    Ok(k) if k > 0 => {
+                        e.written += k;
+                        progress = true;
+                    }
+                    _ => break,
+                }
+            }
+            let may_close = side == 0 || !b_waits || e.finished;
+            if e.written == e.data.len() && may_close && sock.may_send() {
+                sock.close();
+                e.closed = true;
+                progress = true;
+            }
+        }
+        progress
+    }
+
+    /// polls + application steps to a fixpoint, then the C02 finite-deadline invariant
+    fn settle(&mut self) {
+        for e in self.ends.iter_mut() {
+            e.spinning = false;
+        }
+        let mut iters = 0;
+        loop {
+            iters += 1;
+            let mut progress = false;
+            for side in 0..2 {
+                progress |= self.app_step(side);
+            }
+            for side in 0..2 {
+                let mut polls = 0;
+                while let Some(t) = self.poll_at(side) {
+                    if t > self.now {
+                        break;
+                    }
+                    let n = self.poll_side(side);
+                    polls += 1;
+                    if n > 0 {
+                        progress = true;
+                    }
+                    if polls >= 8 {
+                        // poll_at keeps saying "now" although polling achieves nothing
+                        let still = self.poll_at(side).map_or(false, |t| t <= self.now);
+                        if still && n == 0 {
+                            self.ends[side].spinning = true;
+                        }
+                        break;
+                    }
+                }
+            }
+            if !progress {
+                break;
+            }
+            if iters > 400 {
+                self.pending.push(Viol::new("MACHINERY/settle-did-not-converge", "settle loop exceeded 400 iterations"));
+                break;
+            }
+        }
+        // C02 (i): unacknowledged data / SYN / FIN implies a finite deadline
+        for side in 0..2 {
+            let (st, sq) = {
+                let e = &self.ends[side];
+                let s = e.sockets.get::<tcp::Socket>(e.h);
+                (s.state(), s.send_queue())
+            };
+            // only a socket with a live connection has "unacknowledged outgoing data";
+            // after a reset (CLOSED) whatever is left in the transmit buffer is abandoned
+            let live = !matches!(st, State::Closed | State::Listen | State::TimeWait);
+            let needs = live && (sq > 0 || matches!(st, State::SynSent | State::SynReceived | State::FinWait1 | State::Closing | State::LastAck));
+            if needs && self.poll_at(side).is_none() {
+                let cause = self.attribution(side);
+                self.pending.push(Viol::new(
+                    format!("C02/no-deadline/{}/{}", st, cause),
+                    format!(
+                        "{}: state {} send_queue {} but Interface::poll_at is None (no wake-up scheduled); frames in flight: {}/{}",
+                        ["A", "B"][side],
+                        st,
+                        sq,
+                        self.net[0].len(),
+                        self.net[1].len()
+                    ),
+                ));
+            }
+        }
+    }
+
+    /// Names the internal cause of a stall (used only to NAME a violation that the observable
+    /// oracle already established).
+    fn attribution(&self, side: usize) -> String {
+        let e = &self.ends[side];
+        let img = format!("{:?}", e.sockets.get::<tcp::Socket>(e.h));
+        let field = |k: &str| -> String {
+            img.find(k)
+                .map(|i| {
+                    let r = &img[i + k.len()..];
+                    let end = r.find(|c: char| c == ',' || c == '}' || c == ' ').unwrap_or(r.len());
+                    r[..end].to_string()
+                })
+                .unwrap_or_default()
+        };
+        let timer = img.find("timer: ").map(|i| {
+            let r = &img[i + 7..];
+            let end = r.find(|c: char| !c.is_alphanumeric()).unwrap_or(r.len());
+            r[..end].to_string()
+        }).unwrap_or_default();
+        let win0 = field("remote_win_len: ") == "0";
+        let pfr = field("pending_fast_retransmit: ") == "true";
+        let txempty = e.sockets.get::<tcp::Socket>(e.h).send_queue() == 0;
+        format!(
+            "timer-{}{}{}{}",
+            timer,
+            if win0 { "+peer-window-0" } else { "" },
+            if pfr { "+pending-fast-retransmit" } else { "" },
+            if txempty { "+tx-empty" } else { "+tx-queued" }
+        )
+    }
+
+    // ---------------- C05 sender monitor ----------------
+
+    fn on_deliver_learn(&mut self, to: usize, f: &[u8]) {
+        // what endpoint `to` learns from a segment the peer really sent
+        let Ok(ip) = wc::parse_ip(f) else { return };
+        if ip.proto != 6 {
+            return;
+        }
+        let Ok(t) = wc::parse_tcp(&ip, f) else { return };
+        let m = &mut self.mon[to];
+        if t.has(wc::TCP_RST) {
+            return;
+        }
+        if t.has(wc::TCP_SYN) {
+            m.peer_syn_seen = true;
+            m.peer_syn_mss = Some(t.mss);
+            m.peer_syn_ws = t.wscale;
+            if !t.has(wc::TCP_ACK) {
+                m.peer_syn_win = Some(t.win);
+            }
+        }
+        if t.has(wc::TCP_ACK) {
+            let shift = if t.has(wc::TCP_SYN) {
+                0
+            } else {
+                match (m.own_syn_ws, m.peer_syn_ws) {
+                    (Some(_), Some(s)) => s.min(14) as u32,
+                    _ => 0,
+                }
+            };
+            let edge = t.ack.wrapping_add((t.win as u32) << shift);
+            m.max_edge = Some(match m.max_edge {
+                Some(e) if wc::seq_lt(edge, e) => e,
+                _ => edge,
+            });
+        }
+    }
+
+    fn on_emit(&mut self, side: usize, f: &[u8], only_frame_of_poll: bool, recv_queue_after: usize) {
+        let who = ["A", "B"][side];
+        let ip = match wc::parse_ip(f) {
+            Ok(ip) => ip,
+            Err(e) => {
+                self.pending.push(Viol::new("C10/malformed-ip/tcp2", format!("{} emitted: {}", who, e)));
+                return;
+            }
+        };
+        if ip.total_len > self.cfg.mtu {
+            self.pending.push(Viol::new("C05/exceeds-mtu", format!("{} emitted IP packet of {} bytes, MTU {}", who, ip.total_len, self.cfg.mtu)));
+        }
+        if ip.proto != 6 {
+            return;
+        }
+        let t = match wc::parse_tcp(&ip, f) {
+            Ok(t) => t,
+            Err(e) => {
+                self.pending.push(Viol::new("C10/malformed-tcp/tcp2", format!("{} emitted: {}", who, e)));
+                return;
+            }
+        };
+        if !t.checksum_ok {
+            self.pending.push(Viol::new("C08/emitted-bad-checksum/tcp", format!("{} emitted {}", who, wc::describe_ip_frame(f))));
+        }
+        let cfg = self.cfg.clone();
+        let (written, closed, datalen) = {
+            let e = &self.ends[side];
+            (e.written, e.closed, e.data.len())
+        };
+        let data = self.ends[side].data.clone();
+        let rx_cap = self.ends[side].rx_cap;
+        let m = &mut self.mon[side];
+        m.segs += 1;
+        let mut v: Vec<Viol> = vec![];
+        if t.has(wc::TCP_RST) {
+            // resets carry no data and no window promise
+            if !t.payload.is_empty() {
+                v.push(Viol::new("C05/rst-with-payload", format!("{} emitted RST with {} bytes", who, t.payload.len())));
+            }
+            self.pending.extend(v);
+            return;
+        }
+        if t.has(wc::TCP_SYN) {
+            match m.iss {
+                None => m.iss = Some(t.seq),
+                Some(i) if i != t.seq => {
+                    // a new connection attempt would change ISS; tcp2 never reconnects
+                    v.push(Viol::new("C05/syn-seq-changed", format!("{} retransmitted SYN with seq {} (first was {})", who, t.seq, i)));
+                }
+                _ => {}
+            }
+            m.own_syn_seen = true;
+            m.own_syn_ws = t.wscale;
+            if let Some(isn) = cfg.isn {
+                if t.seq != isn[side] {
+                    v.push(Viol::new("MACHINERY/isn-not-as-requested", format!("{} SYN seq {} wanted {}", who, t.seq, isn[side])));
+                }
+            }
+            // (f) SYN windows are unscaled: the field itself is the window, min(free, 65535)
+            let free = rx_cap - recv_queue_after;
+            let expect = free.min(65535) as u16;
+            if only_frame_of_poll && t.win != expect {
+                v.push(Viol::new(
+                    "C05/syn-window-not-unscaled",
+                    format!("{} SYN window field {} but free receive space is {} (expected {})", who, t.win, free, expect),
+                ));
+            }
+            if !t.payload.is_empty() {
+                v.push(Viol::new("C05/syn-with-payload", format!("{} SYN carries {} bytes", who, t.payload.len())));
+            }
+            m.highest_sent = Some(t.seq.wrapping_add(1));
+            self.pending.extend(v);
+            return;
+        }
+        let Some(iss) = m.iss else {
+            v.push(Viol::new("C05/segment-before-syn", format!("{} emitted {} before any SYN", who, wc::describe_ip_frame(f))));
+            self.pending.extend(v);
+            return;
+        };
+        // (f) later windows are scaled as negotiated
+        let shift = match (m.own_syn_ws, m.peer_syn_ws) {
+            (Some(s), Some(_)) => s.min(14) as u32,
+            _ => 0,
+        };
+        if ((t.win as usize) << shift) > rx_cap {
+            v.push(Viol::new(
+                "C05/window-exceeds-buffer",
+                format!("{} advertises window {}<<{} = {} > receive buffer {}", who, t.win, shift, (t.win as usize) << shift, rx_cap),
+            ));
+        }
+        if only_frame_of_poll && m.peer_syn_seen {
+            let free = rx_cap - recv_queue_after;
+            let expect = (free >> shift).min(65535) as u16;
+            if t.win != expect {
+                v.push(Viol::new(
+                    "C05/window-not-scaled-as-negotiated",
+                    format!("{} window field {} but free space {} >> shift {} = {}", who, t.win, free, shift, expect),
+                ));
+            }
+        }
+        let plen = t.payload.len() as u32;
+        let rel = t.seq.wrapping_sub(iss.wrapping_add(1)); // offset of first payload byte in the stream
+        let is_keepalive = cfg.keep_alive_ms.is_some()
+            && t.payload.len() == 1
+            && t.payload[0] == 0
+            && m.highest_sent.map_or(false, |h| t.seq.wrapping_add(1) == h || wc::seq_lt(t.seq, h));
+        if plen > 0 && !is_keepalive {
+            m.data_segs += 1;
+            // (a) payload equals the application's bytes for those sequence numbers
+            let r = rel as usize;
+            if (rel as i32) < 0 || r + t.payload.len() > written {
+                v.push(Viol::new(
+                    "C05/payload-outside-written-stream",
+                    format!("{} sent stream offsets {}..{} but the application wrote only {} bytes", who, rel as i32, rel as i64 + plen as i64, written),
+                ));
+            } else if data[r..r + t.payload.len()] != t.payload[..] {
+                v.push(Viol::new(
+                    "C05/payload-altered",
+                    format!("{} sent bytes at stream offset {} that differ from what the application wrote", who, r),
+                ));
+            }
+            // (b) MSS
+            let peer_mss = match m.peer_syn_mss {
+                Some(Some(0)) | Some(None) | None => 536usize,
+                Some(Some(x)) => (x as usize).max(48),
+            };
+            if t.payload.len() > peer_mss {
+                v.push(Viol::new(
+                    "C05/exceeds-peer-mss",
+                    format!("{} sent {} payload bytes, peer announced MSS {:?} (effective {})", who, t.payload.len(), m.peer_syn_mss, peer_mss),
+                ));
+            }
+            // (c) window
+            let mut edges: Vec<u32> = vec![];
+            if let Some(e) = m.max_edge {
+                edges.push(e);
+            }
+            if let Some(w) = m.peer_syn_win {
+                edges.push(iss.wrapping_add(1).wrapping_add(w as u32));
+            }
+            let end = t.seq.wrapping_add(plen);
+            if edges.is_empty() {
+                v.push(Viol::new("C05/data-before-any-window", format!("{} sent data before learning any window", who)));
+            } else {
+                let edge = edges.iter().copied().fold(edges[0], |a, b| if wc::seq_lt(a, b) { b } else { a });
+                let is_probe = plen == 1 && t.seq == edge;
+                if is_probe {
+                    m.probes += 1;
+                } else if wc::seq_lt(edge, end) {
+                    let retx = m.highest_sent.map_or(false, |h| wc::seq_lt(t.seq, h));
+                    v.push(Viol::new(
+                        format!("C05/beyond-window/{}", if retx { "retransmission" } else { "new-data" }),
+                        format!(
+                            "{} sent seq {}..{} (stream {}..{}) but the highest right edge it was ever given is {} (stream {}): {} bytes beyond the window",
+                            who,
+                            t.seq,
+                            end,
+                            rel,
+                            rel.wrapping_add(plen),
+                            edge,
+                            edge.wrapping_sub(iss.wrapping_add(1)),
+                            wc::seq_diff(end, edge)
+                        ),
+                    ));
+                }
+            }
+            // (d) contiguity of new data
+            if let Some(h) = m.highest_sent {
+                if wc::seq_lt(h, t.seq) {
+                    v.push(Viol::new("C05/gap-in-new-data", format!("{} sent seq {} but highest sequence sent so far is {}", who, t.seq, h)));
+                }
+                if wc::seq_lt(t.seq, h) {
+                    m.retrans_segs += 1;
+                }
+            }
+        }
+        // (e) FIN
+        let seg_end = t.seq.wrapping_add(plen);
+        if t.has(wc::TCP_FIN) {
+            let expect = iss.wrapping_add(1).wrapping_add(datalen as u32);
+            if !closed || written != datalen {
+                v.push(Viol::new("C05/fin-before-close", format!("{} sent FIN although the application has not closed (written {}/{})", who, written, datalen)));
+            } else if seg_end != expect {
+                v.push(Viol::new(
+                    "C05/fin-not-after-all-data",
+                    format!("{} sent FIN at stream offset {} but {} bytes were written", who, seg_end.wrapping_sub(iss.wrapping_add(1)), datalen),
+                ));
+            }
+            m.fin_seq = Some(seg_end);
+        } else if let Some(fs) = m.fin_seq {
+            if plen > 0 && !is_keepalive && wc::seq_lt(fs, seg_end) {
+                v.push(Viol::new("C05/data-after-fin", format!("{} sent seq up to {} after FIN at {}", who, seg_end, fs)));
+            }
+        }
+        if !is_keepalive {
+            let new_high = seg_end.wrapping_add(t.has(wc::TCP_FIN) as u32);
+            m.highest_sent = Some(match m.highest_sent {
+                Some(h) if wc::seq_lt(new_high, h) => h,
+                _ => new_high,
+            });
+        }
+        self.pending.extend(v);
+    }
+
+    fn deliver(&mut self, to: usize, fr: &Frame) {
+        if !fr.corrupted {
+            let b = fr.bytes.clone();
+            self.on_deliver_learn(to, &b);
+        }
+        if self.keep_log {
+            self.log.push(format!("t={}us   -> {} receives {}{}", self.now, ["A", "B"][to], wc::describe_ip_frame(&fr.bytes), if fr.corrupted { " (corrupted)" } else { "" }));
+        }
+        self.ends[to].dev.rx.push_back(fr.bytes.clone());
+        // a frame arrived: the interface is polled
+        self.poll_side(to);
+    }
+
+    pub fn done(&self) -> bool {
+        self.ends.iter().all(|e| e.state() == State::Closed)
+            && self.net[0].is_empty()
+            && self.net[1].is_empty()
+            && self.ends.iter().all(|e| e.finished && e.closed)
+    }
+
+    fn earliest_deadline(&mut self) -> Option<i64> {
+        let mut d: Option<i64> = None;
+        for side in 0..2 {
+            if let Some(t) = self.poll_at(side) {
+                if t > self.now {
+                    d = Some(d.map_or(t, |x: i64| x.min(t)));
+                }
+            }
+        }
+        d
+    }
+}
+
+impl Harness for Tcp2 {
+    type Cfg = Tcp2Cfg;
+    type Ev = Ev;
+
+    fn new(cfg: &Tcp2Cfg) -> Tcp2 {
+        let mut t = Tcp2 {
+            cfg: cfg.clone(),
+            now: 0,
+            ends: [Tcp2::make_end(cfg, 0), Tcp2::make_end(cfg, 1)],
+            net: [vec![], vec![]],
+            next_id: 0,
+            mon: [SenderMon::default(), SenderMon::default()],
+            events: 0,
+            pending: vec![],
+            log: vec![],
+            keep_log: false,
+            emitted: vec![],
+            keep_emitted: false,
+            cached_deadline: None,
+        };
+        // B listens, A connects
+        t.ends[1].sock().listen(PORT_B).expect("listen");
+        let remote = t.ends[1].addr;
+        {
+            let e = &mut t.ends[0];
+            let cx = e.iface.context();
+            e.sockets.get_mut::<tcp::Socket>(e.h).connect(cx, (remote, PORT_B), PORT_A).expect("connect");
+        }
+        t.settle();
+        t.cached_deadline = t.earliest_deadline();
+        t
+    }
+
+    fn enabled(&self) -> Vec<(Ev, u32)> {
+        // NOTE: needs &mut for poll_at; we use interior re-computation through a clone-free trick:
+        // enabled() is only called between apply() calls, so we cache the deadline in apply().
+        let mut v = vec![];
+        if self.done() {
+            return v;
+        }
+        let h0 = self.net[0].first().map(|f| f.id);
+        let h1 = self.net[1].first().map(|f| f.id);
+        let any_stalled = self.ends.iter().position(|e| e.stalled);
+        let deadline = self.cached_deadline;
+        // default
+        match (h0, h1) {
+            (Some(a), Some(b)) => v.push((Ev::Deliver { to: if a < b { 0 } else { 1 }, idx: 0 }, 0)),
+            (Some(_), None) => v.push((Ev::Deliver { to: 0, idx: 0 }, 0)),
+            (None, Some(_)) => v.push((Ev::Deliver { to: 1, idx: 0 }, 0)),
+            (None, None) => {
+                if let Some(s) = any_stalled {
+                    v.push((Ev::Unstall { side: s }, 0));
+                } else if deadline.is_some() {
+                    v.push((Ev::Tick, 0));
+                } else {
+                    return v; // nothing can happen any more: terminal (deadlock unless done)
+                }
+            }
+        }
+        // deviations
+        for to in 0..2 {
+            if !self.net[to].is_empty() {
+                v.push((Ev::Drop { to }, 1));
+                v.push((Ev::Dup { to }, 1));
+                if self.cfg.allow_corrupt {
+                    v.push((Ev::Corrupt { to }, 1));
+                }
+                for idx in 1..self.net[to].len() {
+                    v.push((Ev::Deliver { to, idx }, 1));
+                }
+            }
+        }
+        let in_flight = h0.is_some() || h1.is_some();
+        if deadline.is_some() && (in_flight || any_stalled.is_some()) {
+            v.push((Ev::Tick, 1));
+        }
+        if self.cfg.allow_stall {
+            for side in 0..2 {
+                let e = &self.ends[side];
+                if !e.stalled && !e.finished && self.cfg.len[1 - side] > 0 {
+                    v.push((Ev::Stall { side }, 1));
+                }
+            }
+        }
+        v
+    }
+
+    fn apply(&mut self, ev: &Ev, out: &mut Vec<Viol>) {
+        self.events += 1;
+        match *ev {
+            Ev::Deliver { to, idx } => {
+                let fr = self.net[to].remove(idx);
+                self.deliver(to, &fr);
+            }
+            Ev::Drop { to } => {
+                let fr = self.net[to].remove(0);
+                if self.keep_log {
+                    self.log.push(format!("t={}us   xx dropped: {}", self.now, wc::describe_ip_frame(&fr.bytes)));
+                }
+            }
+            Ev::Dup { to } => {
+                let fr = self.net[to].remove(0);
+                let copy = Frame { id: self.next_id, bytes: fr.bytes.clone(), corrupted: fr.corrupted };
+                self.next_id += 1;
+                self.net[to].push(copy);
+                self.deliver(to, &fr);
+            }
+            Ev::Corrupt { to } => {
+                let mut fr = self.net[to].remove(0);
+                // flip one bit in the TCP sequence number field (IPv4: 20+4, IPv6: 40+4)
+                let off = if self.cfg.v6 { 44 } else { 24 } + 3;
+                if off < fr.bytes.len() {
+                    fr.bytes[off] ^= 0x04;
+                }
+                fr.corrupted = true;
+                self.deliver(to, &fr);
+            }
+            Ev::Tick => {
+                // A reader only stays stalled across a sleep while the peer may still send
+                // (that is what produces zero windows). An application that has been told
+                // nothing more can arrive reads what it has before it goes to sleep; otherwise
+                // TIME-WAIT expiry discards unread data, which is the application's doing.
+                let mut changed = false;
+                for e in self.ends.iter_mut() {
+                    if e.stalled && !matches!(e.state(), State::Established | State::FinWait1 | State::FinWait2) {
+                        e.stalled = false;
+                        changed = true;
+                    }
+                }
+                if changed {
+                    self.settle();
+                    self.cached_deadline = self.earliest_deadline();
+                }
+                if let Some(d) = self.cached_deadline {
+                    self.now = d;
+                }
+            }
+            Ev::Stall { side } => self.ends[side].stalled = true,
+            Ev::Unstall { side } => self.ends[side].stalled = false,
+        }
+        self.settle();
+        self.cached_deadline = self.earliest_deadline();
+        out.append(&mut self.pending);
+    }
+
+    fn fingerprint(&self) -> u128 {
+        let mut s = String::new();
+        use std::fmt::Write;
+        for e in &self.ends {
+            write!(s, "{:?}|{}|{}|{}|{}|{}|", e.sockets, e.written, e.read.len(), e.closed, e.finished, e.stalled).unwrap();
+        }
+        for d in 0..2 {
+            for f in &self.net[d] {
+                write!(s, "{}:{}:{};", d, f.corrupted, hex(&f.bytes)).unwrap();
+            }
+        }
+        write!(s, "@{}", self.now).unwrap();
+        fp128(&s)
+    }
+
+    fn finish(&mut self, horizon_hit: bool, out: &mut Vec<Viol>) {
+        if self.done() {
+            // both directions complete?
+            for side in 0..2 {
+                let e = &self.ends[side];
+                let peer = &self.ends[1 - side];
+                if e.read.len() != peer.data.len() {
+                    out.push(Viol::new("C02/closed-with-bytes-missing", format!("{} read {} of {} bytes", ["A", "B"][side], e.read.len(), peer.data.len())));
+                }
+            }
+            return;
+        }
+        let sa = self.ends[0].state();
+        let sb = self.ends[1].state();
+        let desc = format!(
+            "A: state {} wrote {}/{} read {}/{} finished {} | B: state {} wrote {}/{} read {}/{} finished {} | in flight {}/{} | t={}us",
+            sa,
+            self.ends[0].written,
+            self.ends[0].data.len(),
+            self.ends[0].read.len(),
+            self.ends[1].data.len(),
+            self.ends[0].finished,
+            sb,
+            self.ends[1].written,
+            self.ends[1].data.len(),
+            self.ends[1].read.len(),
+            self.ends[0].data.len(),
+            self.ends[1].finished,
+            self.net[0].len(),
+            self.net[1].len(),
+            self.now
+        );
+        if horizon_hit {
+            out.push(Viol::new(format!("C02/no-completion-within-horizon/{}-{}", sa, sb), desc));
+        } else {
+            let ca = self.attribution(0);
+            let cb = self.attribution(1);
+            out.push(Viol::new(
+                format!("C02/deadlock/{}-{}/{}/{}", sa, sb, ca, cb),
+                format!("nothing in flight, no deadline on either interface, no application step possible, yet not complete: {}", desc),
+            ));
+        }
+    }
+
+    fn outcome(&self) -> String {
+        format!(
+            "{}-{} read {}/{} fin {}{}",
+            self.ends[0].state(),
+            self.ends[1].state(),
+            self.ends[0].read.len(),
+            self.ends[1].read.len(),
+            self.ends[0].finished as u8,
+            self.ends[1].finished as u8
+        )
+    }
+}
+
+// ---------------------------------------------------------------------------------------
+// configurations and check drivers
+// ---------------------------------------------------------------------------------------
+
+pub fn configs(tier: Tier) -> Vec<(Tcp2Cfg, u32)> {
+    let b = Tcp2Cfg::base;
+    let mut v = vec![];
+    // smallest configuration: 16-byte receive window at B, 60 bytes A->B (MSS 40)
+    let small = Tcp2Cfg { rx: [64, 16], ..b("rx16") };
+    let dflt = Tcp2Cfg { len: [60, 20], ..b("bidir64") };
+    let wrap = Tcp2Cfg { isn: Some([0x7fff_ffe2, 0xffff_ffe2]), len: [60, 20], ..b("isn-wrap") };
+    let big = Tcp2Cfg { rx: [2048, 2048], tx: [2048, 2048], mtu: 576, len: [200, 0], chunk: 7, ..b("buf2048-chunk7") };
+    let reno = Tcp2Cfg { cc: 1, len: [120, 0], rx: [64, 256], tx: [256, 64], ..b("reno") };
+    let cubic = Tcp2Cfg { cc: 2, len: [120, 0], rx: [64, 256], tx: [256, 64], ..b("cubic") };
+    let nonagle = Tcp2Cfg { nagle: false, ack_delay: false, chunk: 7, len: [40, 10], ..b("nonagle-noackdelay") };
+    let v6 = Tcp2Cfg { v6: true, mtu: 1280, len: [100, 0], rx: [64, 32], ..b("ipv6") };
+    let wscale = Tcp2Cfg { rx: [131072, 131072], tx: [4096, 4096], mtu: 1500, len: [3000, 0], isn: Some([0xffff_f000, 0x7fff_f800]), ..b("wscale-128k") };
+    let eager = Tcp2Cfg { b_waits_fin: false, len: [30, 30], ..b("simultaneous-close") };
+    let corrupt = Tcp2Cfg { allow_corrupt: true, len: [50, 0], ..b("corrupt") };
+    let stallcfg = Tcp2Cfg { rx: [64, 32], tx: [256, 64], len: [100, 0], chunk: 1000, ..b("rx32-len100") };
+    let tiny = Tcp2Cfg { rx: [8, 8], tx: [16, 16], len: [20, 9], mtu: 80, ..b("rx8-bidir") };
+    match tier {
+        Tier::Quick => {
+            v.push((small, 4));
+            v.push((dflt, 3));
+            v.push((wrap, 3));
+            v.push((big, 2));
+            v.push((reno, 3));
+            v.push((cubic, 3));
+            v.push((nonagle, 3));
+            v.push((v6, 3));
+            v.push((wscale, 2));
+            v.push((eager, 3));
+            v.push((corrupt, 2));
+            v.push((stallcfg, 3));
+            v.push((tiny, 3));
+        }
+        Tier::Thorough => {
+            v.push((small, 5));
+            v.push((dflt, 4));
+            v.push((wrap, 4));
+            v.push((big, 3));
+            v.push((reno, 4));
+            v.push((cubic, 4));
+            v.push((nonagle, 4));
+            v.push((v6, 4));
+            v.push((wscale, 3));
+            v.push((eager, 4));
+            v.push((corrupt, 3));
+            v.push((stallcfg, 4));
+            v.push((tiny, 4));
+        }
+    }
+    v
+}
+
+fn cfg_by_name(name: &str) -> Option<Tcp2Cfg> {
+    configs(Tier::Thorough).into_iter().map(|c| c.0).find(|c| name.contains(&format!("name: \"{}\"", c.name)))
+}
+
+/// Runs the shared tcp2 exploration and returns everything found; `keep` filters signatures
+/// by property prefix.
+pub fn explore_all(rep: &mut Report, tier: Tier, keep: &[&str]) {
+    let lim = Limits { max_states: 200_000_000, max_wall_s: if tier == Tier::Quick { 45.0 } else { 1500.0 } };
+    let mut all: Vec<Found> = vec![];
+    for (cfg, k) in configs(tier) {
+        let mut samples = vec![];
+        let t0 = std::time::Instant::now();
+        match devbound::<Tcp2>("tcp2", &cfg, k, 2000, &lim, &mut all, &mut samples) {
+            Ok(st) => {
+                eprintln!("tcp2 cfg={} k<={} runs={} wall={:.1}s", cfg.name, k, st.runs, t0.elapsed().as_secs_f64());
+                rep.absorb(&format!("tcp2 cfg={} k<={}", cfg.name, k), &st);
+                if rep.samples.len() < 6 {
+                    rep.samples.extend(samples.into_iter().rev().take(2));
+                }
+            }
+            Err(e) => rep.machinery_errors.push(format!("tcp2 {}: {}", cfg.name, e)),
+        }
+    }
+    let mut other = std::collections::BTreeSet::new();
+    for f in all {
+        if f.viol.sig.starts_with("MACHINERY") {
+            rep.machinery_errors.push(format!("{}: {}", f.viol.sig, f.viol.detail));
+        } else if keep.iter().any(|p| f.viol.sig.starts_with(p)) {
+            rep.found.push(f);
+        } else {
+            other.insert(f.viol.sig.clone());
+        }
+    }
+    rep.cov("signatures_of_other_properties_seen_in_these_runs", json!(other.into_iter().collect::<Vec<_>>()));
+    rep.cov("rule", json!("deviation-bounded stateless search over event schedules of two real interfaces: all executions with <=k deviations (drop/dup/reorder/corrupt/timer-first/reader-stall), each continued under the default schedule to completion; oracles evaluated after every event"));
+    rep.assumptions.push("bounds: <=k environment deviations per execution, transfers of 40-3000 bytes, listed configurations; default continuation = reliable FIFO delivery, eager applications".into());
+    rep.assumptions.push("liveness decided as bounded reachability: every run must end with both sockets CLOSED and all bytes delivered; deadlock detected exactly, livelock by a 2000-event horizon".into());
+    rep.assumptions.push("trusted: harness application model, independent TCP/IP parser (wirecheck)".into());
+}
+
+pub fn run_c01(tier: Tier) -> i32 {
+    let mut rep = Report::new("C01", tier);
+    explore_all(&mut rep, tier, &["C01/", "panic/"]);
+    rep.finish()
+}
+pub fn run_c02(tier: Tier) -> i32 {
+    let mut rep = Report::new("C02", tier);
+    explore_all(&mut rep, tier, &["C02/", "panic/"]);
+    rep.finish()
+}
+fn replay_any(art: &serde_json::Value) -> i32 {
+    let cfgs = art["replay"]["config"].as_str().unwrap_or("");
+    let Some(cfg) = cfg_by_name(cfgs) else {
+        eprintln!("unknown tcp2 configuration in artefact");
+        return 2;
+    };
+    // verbose replay with frame log
+    let choices: Vec<u16> = art["replay"]["choices"].as_array().map(|a| a.iter().map(|x| x.as_u64().unwrap_or(0) as u16).collect()).unwrap_or_default();
+    let mut h = Tcp2::new(&cfg);
+    h.keep_log = true;
+    let mut viols = vec![];
+    for (i, &c) in choices.iter().enumerate() {
+        let en = h.enabled();
+        if c as usize >= en.len() {
+            eprintln!("MACHINERY ERROR: replay divergence at step {}", i);
+            return 2;
+        }
+        let ev = en[c as usize].0.clone();
+        println!("--- step {} {:?}", i, ev);
+        let r = std::panic::catch_unwind(std::panic::AssertUnwindSafe(|| h.apply(&ev, &mut viols)));
+        for l in h.log.drain(..) {
+            println!("    {}", l);
+        }
+        if let Err(e) = r {
+            println!("PANIC: {} at {}", panic_msg(e), last_panic_loc());
+            return 1;
+        }
+        println!("    A {} sq={} rq={} | B {} sq={} rq={} | poll_at A={:?} B={:?}",
+            h.ends[0].state(), h.ends[0].sock().send_queue(), h.ends[0].sock().recv_queue(),
+            h.ends[1].state(), h.ends[1].sock().send_queue(), h.ends[1].sock().recv_queue(),
+            h.poll_at(0), h.poll_at(1));
+    }
+    if h.enabled().is_empty() {
+        h.finish(false, &mut viols);
+    }
+    println!("outcome: {}", h.outcome());
+    if viols.is_empty() {
+        println!("no violation on replay");
+        0
+    } else {
+        for v in viols {
+            println!("violation: {} :: {}", v.sig, v.detail);
+        }
+        1
+    }
+}
+pub fn replay_c01(art: &serde_json::Value) -> i32 {
+    replay_any(art)
+}
+pub fn replay_c02(art: &serde_json::Value) -> i32 {
+    replay_any(art)
 }
